@@ -274,8 +274,10 @@ Definition cls_p (x : expr) : list (key * list str) :=
   end.
 Definition is_any (x : expr) : bool := match x with ESearch SAny _ _ => true | _ => false end.
 Definition is_rest (x : expr) : bool :=
-  match x with ESearch _ _ _ | ENested _ _ => false | _ => true end.
-Definition is_nest (x : expr) : bool := match x with ENested _ _ => true | _ => false end.
+  match x with ESearch _ _ _ => false | ENested _ inner => is_all_match inner | _ => true end.
+(* a nested block that the pass merges (fix D29: not one whose body is an all() list) *)
+Definition is_nest (x : expr) : bool :=
+  match x with ENested _ inner => negb (is_all_match inner) | _ => false end.
 Definition srch (x : expr) : bool := match x with ESearch _ _ _ => true | _ => false end.
 
 Lemma classify_step : forall a0 x,
@@ -286,9 +288,10 @@ Lemma classify_step : forall a0 x,
   (is_nest x = false -> oa_nested (or_classify a0 x) = oa_nested a0).
 Proof.
   intros a0 x. destruct x as [s l|l s r|b|f m|f|z|i|z|k e|cols rows|e|f e| |s f c];
-    try destruct s;
+    try destruct s; try destruct (is_all_match e) eqn:Eam;
     cbn [or_classify mt_of_search cls_n cls_p is_any is_rest is_nest fold_left push fst snd
          oa_needles oa_patterns oa_any oa_rest oa_nested];
+    rewrite ?Eam; cbn [negb oa_needles oa_patterns oa_any oa_rest oa_nested];
     rewrite ?app_nil_r; repeat split; try reflexivity; try discriminate.
 Qed.
 
@@ -387,19 +390,24 @@ Proof.
 Qed.
 
 Lemma fold_nested_none : forall L m0, existsb is_nest L = false ->
-  fold_left (fun m x => match x with ENested f inner => amap_push f [inner] m | _ => m end) L m0 = m0.
+  fold_left (fun m x => match x with
+                        | ENested f inner => if is_all_match inner then m else amap_push f [inner] m
+                        | _ => m
+                        end) L m0 = m0.
 Proof.
   induction L as [|x L IH]; intros m0 H; [reflexivity|]. cbn [existsb] in H.
   apply orb_false_iff in H. destruct H as [Hx HL]. cbn [fold_left].
-  destruct x; try discriminate; apply IH; exact HL.
+  destruct x; try (apply IH; exact HL).
+  cbn [is_nest] in Hx. apply negb_false_iff in Hx. rewrite Hx. apply IH. exact HL.
 Qed.
 
 Lemma filter_plain_all : forall L, existsb is_nest L = false ->
-  filter (fun x => match x with ENested _ _ => false | _ => true end) L = L.
+  filter (fun x => match x with ENested _ inner => is_all_match inner | _ => true end) L = L.
 Proof.
   induction L as [|x L IH]; intros H; [reflexivity|]. cbn [existsb] in H.
   apply orb_false_iff in H. destruct H as [Hx HL]. cbn [filter].
-  destruct x; try discriminate; rewrite (IH HL); reflexivity.
+  destruct x; try (rewrite (IH HL); reflexivity).
+  cbn [is_nest] in Hx. apply negb_false_iff in Hx. rewrite Hx, (IH HL). reflexivity.
 Qed.
 
 Lemma shake1_and_eq : forall ord fu l,
@@ -650,7 +658,8 @@ Lemma cls_total : forall x,
   (exists kv, In kv (cls_n x)) \/ (exists kv, In kv (cls_p x)).
 Proof.
   intros x. destruct x as [s l|l s r|b|f m|f|z|i|z|k e|cols rows|e|f e| |s f c]; cbn; auto.
-  destruct s; cbn; eauto 8.
+  - destruct (is_all_match e); cbn; auto.
+  - destruct s; cbn; eauto 8.
 Qed.
 
 Lemma shake1_other_q : forall ord fuel e, other_q e = true -> other_q (shake1 ord fuel e) = true.
